@@ -415,6 +415,9 @@ def run(ctx):
         record_checks(ctx, 'nd.%s(f, %s, full_output=True)(x)' % (cname, desc['kw']), desc, val, info, fx, rng_steps)
         ctx.count(1, ('record', cname, method))
         if cname != 'Hessian' and d.n > 0:
+            bad = pipe.context_certificate(rec)
+            if bad:
+                ctx.brk('oracle-certificate', 'nd.%s(f, %s, full_output=True)(x): %s' % (cname, desc['kw'], bad), desc)
             cs, why = pipe.column_cases(val, info, rec)
             if why:
                 skipped[why] = skipped.get(why, 0) + 1
